@@ -379,6 +379,8 @@ def run_query_(pid, q, tier, keep=False, verbose=False):
             res["solver_s"] = round(res.get("solver_s", 0) + secs, 2)
             if rc == -9:
                 res["status"] = "timeout"
+                if secs < tmo - 10:
+                    res["note"] = (res.get("note") or "") + " [cbmc was killed after %.0f s, before its time limit: out of memory]" % secs
                 return res
             pj = parse_json(out)
             if rc not in (0, 10) or pj is None or pj["results"] is None:
@@ -595,7 +597,9 @@ def check(pid, tier, only=None, keep=False, verbose=False):
     for r in results:
         q = r["_q"]
         st = r["status"]
-        if st in ("build-error", "cbmc-error", "harness-error", "vacuous", "runner-error"):
+        if st in ("cbmc-error", "harness-error") and not q.required:
+            inconclusive_stretch.append(r["query"])     # stretch goal beyond the resources / bounds: never counts
+        elif st in ("build-error", "cbmc-error", "harness-error", "vacuous", "runner-error"):
             broken.append("%s: %s %s" % (r["query"], st, (r.get("error") or "")[:400]))
         elif st == "timeout":
             if q.required:
